@@ -57,6 +57,8 @@ THEOREMS = [
     'CpProofs.C09.defaultTools_ok',
     'CpProofs.C09.default_plain_tool',
     'CpProofs.C09.default_priorities_numeric',
+    'CpProofs.C09.default_tool_hook_count',
+    'CpProofs.C09.exitToolbox_errorResponse',
     # what sorted() on Hook.__lt__ gives; link to the natural-number priorities of the pipeline model
     'CpProofs.C09.sortedHooks_numeric',
     'CpProofs.C09.sortedHooks_typeError_iff',
@@ -191,6 +193,13 @@ def _expected(plan, obs):
     return exp, att, planned
 
 
+def _truthy(v):
+    try:
+        return bool(v)
+    except Exception:     # noqa: BLE001
+        return None
+
+
 def _same_number(actual, want):
     try:
         return isinstance(actual, (int, float)) and actual == want
@@ -201,6 +210,10 @@ def _same_number(actual, want):
 def oracle(plan, obs):
     """List of (what, signature) failures of C09 on this observation."""
     bad = []
+    if obs.get('rejected'):
+        # Hook(...) / Tool(...) / the decorator / the application config raised for a declaration the documentation
+        # allows: the hooks cannot run as declared
+        return [('declaring the hooks failed: %s' % obs['rejected'], 'declaration_rejected')]
     j = obs['j']
     groups = []        # (req, point, [ids], position)
     cur = None
@@ -250,7 +263,7 @@ def oracle(plan, obs):
                                                                              pc.POINT_NAMES[p]),
                                 'hook_declaration_not_honoured'))
                 elif ((d['prio'] not in (ca.AMBIG, ca.NONNUM) and not _same_number(pr, d['prio']))
-                      or (d['fs'] is not None and bool(fs) != d['fs'])):
+                      or (d['fs'] is not None and _truthy(fs) != d['fs'])):
                     flagged.add(hid)
                     bad.append(('hook %d declared with priority %r, failsafe %r is attached with priority %r, failsafe %r'
                                 % (hid, d['prio'], d['fs'], pr, fs), 'hook_declaration_not_honoured'))
@@ -282,7 +295,7 @@ def oracle(plan, obs):
                 if hid is None or e is not None:
                     skip = 'a hook that cannot be identified / is not declared'
                     break
-                attached.append((hid, pr, bool(fs), 'ok'))     # old-format plan: as the request recorded it
+                attached.append((hid, pr, _truthy(fs), 'ok'))     # old-format plan: as the request recorded it
                 continue
             if d['prio'] in (ca.AMBIG, ca.NONNUM):
                 skip = 'a priority the documentation gives no meaning to'
